@@ -224,12 +224,12 @@ def path_rules(col, gcode, paths, I):
             col.report('C14.R1', 'ExcludeRegionState.processLinearMoves', '%s excluded while disabled' % gcode,
                        'a move is treated as excluded although exclusion is disabled',
                        detail={'entry': p.entry, 'decisions': f.decisions()})
-        if ('ExcludeRegionState', 'processLinearMoves') not in f.calls and gcode not in ('G0', 'G1'):
-            continue
-        col.instance('C14.R3', sig)
         from .pathfacts import exact_tracking
         for (fn, construct, msg) in exact_tracking(f, gcode):
             col.report('C14.R3', fn, construct + ' while disabled', msg, detail={'entry': p.entry, 'decisions': f.decisions()})
+        if ('ExcludeRegionState', 'processLinearMoves') not in f.calls and gcode not in ('G0', 'G1'):
+            continue
+        col.instance('C14.R3', sig)
         for axis, letter in (('X_AXIS', 'X'), ('Y_AXIS', 'Y'), ('Z_AXIS', 'Z')):
             aoid = '%s.position.%s' % (S_OID, axis)
             assume = {('fld', aoid, 'absoluteMode'): frozenset([True])} if gcode in ('G2', 'G3') else None
@@ -288,5 +288,10 @@ def run(ctx, tier):
     ctx.rule('C03.R4', 'C03: every word of the exit commands is the logical value of the tracked native position', floor=6)
     rules_c03.exit_rules(ctx, make_interp(ctx.model), {('fld', _S, 'excluding'): [True]}, 'exitExcludedRegion (disable @-command)')
     run_path_rules(ctx, __name__, 'path_rules', ['G0', 'G1', 'G2', 'G3'], unroll=1)
+    from .rules_c19 import tokeniser_premise
+    tokeniser_premise(ctx)
+    from .rules_c08 import frame_premise, state_code_premise
+    frame_premise(ctx)
+    state_code_premise(ctx)
     ctx.assume('the exit sequence itself is decided by C03; pattern matching of parameters is AtCommandAction.matches '
                '(regular expression supplied by the user)')
